@@ -28,7 +28,7 @@ KEYS = {
 AUTHS = {'noauth': None, 'basic0': [], 'basic1': ['alice'], 'basic2': [('alice', 'tok123'), 'bob']}
 PORTSETS = {
     'int': [80], 'pair': [(80, 8080)], 'unix': [(80, 'unix:/tmp/sock')], 'addr': [(443, '127.0.0.1:9999')],
-    'str': ['80 127.0.0.1:1234'], 'strunix': ['443 unix:/x/y'], 'three': [(80, 8080), '443 127.0.0.1:4443', (22, 'unix:/s')],
+    'str': ['80 127.0.0.1:1234'], 'samevirt': [(80, 8080), (80, 8081), '80 unix:/tmp/third'], 'strunix': ['443 unix:/x/y'], 'three': [(80, 8080), '443 127.0.0.1:4443', (22, 'unix:/s')],
 }
 
 
@@ -52,7 +52,7 @@ def corpus():
 
 def gen_cases(rng, tier):
     for ver, key, det, sh, auth, ps in itertools.product([2, 3], sorted(KEYS), [False, True], [False, True], sorted(AUTHS), sorted(PORTSETS)):
-        if tier == 'quick' and ps not in ('pair', 'three', 'int') and (det or sh):
+        if tier == 'quick' and ps not in ('pair', 'three', 'int', 'samevirt') and (det or sh):
             continue
         yield {'version': ver, 'key': key, 'detach': det, 'single_hop': sh, 'auth': auth, 'ports': ps}
     # the same requests through the builder object applications hold: Tor.create_onion_service (no client authorisation there)
